@@ -77,7 +77,7 @@ theorem proof_options_roundtrip (o : ProofOptions) (h : o.Valid) (r : Bytes) :
 /-- Context (trace info, modulus bytes, options, constraint count) -/
 theorem context_roundtrip (c : Context) (h : c.Valid) (r : Bytes) :
     Context.decode (c.encode ++ r) = .ok c r := by
-  obtain ⟨hi, ho, _, _, hnc0, hnc, hm0, hm, hnz⟩ := h
+  obtain ⟨hi, ho, hl1, hl2, hnc0, hnc, hm0, hm, hnz⟩ := h
   unfold Context.decode Context.encode lenBytesEnc
   simp only [List.append_assoc]
   rw [trace_info_roundtrip _ hi]; simp only []
@@ -93,7 +93,8 @@ theorem context_roundtrip (c : Context) (h : c.Valid) (r : Bytes) :
     simp_all
   rw [if_neg hall]
   rw [proof_options_roundtrip _ ho]; simp only []
-  rw [readUsize_writeUsize _ _ (by omega)]
+  rw [readUsize_writeUsize _ _ (by omega)]; simp only []
+  rw [if_neg (by omega), if_neg (by omega)]
 
 /-- Commitments (any byte string shorter than 2^16) -/
 theorem commitments_roundtrip (bs r : Bytes) (h : bs.length < 65536) :
